@@ -689,7 +689,7 @@ func directed() []scenario {
 			s.ackOne(1, true)
 			s.w.settle()
 			s.w.finishCall(s.publish(1))
-			for s.ackOne(0, false) {
+			for guard1 := 0; guard1 < 64 && s.ackOne(0, false); guard1++ {
 				s.w.settle()
 			}
 			s.note("drop carrier=false")
@@ -771,7 +771,7 @@ func directed() []scenario {
 			s.w.settle()
 			s.opts.clean = false
 			if s.connect("accept-sp", false, false, false) {
-				for s.ackOne(s.r.Intn(3), false) {
+				for guard2 := 0; guard2 < 64 && s.ackOne(s.r.Intn(3), false); guard2++ {
 					s.w.settle()
 				}
 			}
